@@ -119,6 +119,36 @@ pub fn check_c01<T: Sc>(r: &Reference, obs: &Obs<T>, out: &mut Vec<Finding>, g: 
     let k = 256.0 * (n.max(m) as f64);
     let phi_f = refla::fro(&r.phi_w);
     let resid = &r.yw - &r.phi_w * &c;
+    // Fallback acceptance.  The tight bounds below are what a backward stable solver achieves.  The
+    // property, however, only says "minimises" and "minimum norm", and nalgebra 0.33's SVD is measurably
+    // less accurate in one legitimate corner (a basis column of norm ~1e-12 next to O(1) columns: backward
+    // error 2.5e-8, coefficients off by 5e-11 relative).  A coefficient vector whose fitted values differ
+    // from the reference minimiser's by less than `floor`*|y_w| (i.e. the objective exceeds the minimum by
+    // less than floor^2 relative) and whose component along truncated directions is below `floor`*|c| is
+    // accepted and counted (gauge C01_accepted_by_excess_objective), not reported.
+    // (measured up to 3.5e-7 |y_w| in fitted values on the fit grid; the floor leaves a factor 30).  The fallback
+    // is only available in that corner: some singular value below 1e-6 sigma_max.  Elsewhere the tight bounds decide.
+    let floor = if T::EPS > 1e-10 { 2e-3 } else { 1e-5 };
+    let corner = svd.s.iter().cloned().fold(f64::INFINITY, f64::min) < 1e-6 * r.smax;
+    let fallback_val = |s: usize| -> (f64, f64) {
+        let dc = &c.column(s) - &r.c_ref.column(s);
+        let mut fitted = 0.0f64;
+        let mut trunc = 0.0f64;
+        for j in 0..m {
+            let comp = svd.v.column(j).dot(&dc);
+            if r.kept[j] {
+                fitted += (svd.s[j] * comp).powi(2);
+            } else {
+                trunc = trunc.max(svd.v.column(j).dot(&c.column(s)).abs());
+            }
+        }
+        let ys = r.yw.column(s).norm();
+        (fitted.sqrt() / ys.max(1e-300), trunc / c.column(s).norm().max(ys / r.smax.max(1e-300)).max(1e-300))
+    };
+    let fallback_ok = |s: usize| -> bool {
+        let (a, b) = fallback_val(s);
+        corner && a <= floor && b <= floor
+    };
     for s in 0..c.ncols() {
         let cs = c.column(s).norm();
         let ys = r.yw.column(s).norm();
@@ -132,38 +162,50 @@ pub fn check_c01<T: Sc>(r: &Reference, obs: &Obs<T>, out: &mut Vec<Finding>, g: 
             }
         }
         let tol = k * eps * phi_f * scale;
-        g.push(("C01_certificate", worst / tol.max(1e-300)));
         if !(worst <= tol) {
+            if fallback_ok(s) {
+                g.push(("C01_accepted_by_excess_objective", 1.0));
+                continue;
+            }
             out.push(f(
                 "C01",
                 "not-least-squares-optimal",
-                format!("rhs {}: |Phi_w^T (y_w - Phi_w c)| = {:e} on the retained subspace exceeds {:e} (class {:?}, singular values {:?}, threshold {:e})", s, worst, tol, r.class, svd.s, r.thr),
+                format!("rhs {}: |Phi_w^T (y_w - Phi_w c)| = {:e} on the retained subspace exceeds {:e} (class {:?}, singular values {:?}, threshold {:e}; fitted values differ from the minimiser's by {:e} |y_w|, truncated component {:e} |c|)", s, worst, tol, r.class, svd.s, r.thr, fallback_val(s).0, fallback_val(s).1),
             ));
             return;
         }
+        g.push(("C01_certificate", worst / tol.max(1e-300)));
         // minimum norm: no component along truncated right singular vectors
+        let mut min_norm_bad: Option<String> = None;
         for j in 0..m {
             if !r.kept[j] {
                 let v = svd.v.column(j).dot(&c.column(s)).abs();
                 let tol = k * eps * r.kappa_kept * cs.max(ys / r.smax.max(1e-300));
-                g.push(("C01_minimum_norm", v / tol.max(1e-300)));
                 if !(v <= tol) {
-                    out.push(f(
-                        "C01",
-                        "not-minimum-norm",
-                        format!("rhs {}: coefficient vector has component {:e} along a right singular vector whose singular value {:e} is below the threshold {:e} (tolerance {:e})", s, v, svd.s[j], r.thr, tol),
-                    ));
-                    return;
+                    min_norm_bad = Some(format!("rhs {}: coefficient vector has component {:e} along a right singular vector whose singular value {:e} is below the threshold {:e} (tolerance {:e})", s, v, svd.s[j], r.thr, tol));
+                } else {
+                    g.push(("C01_minimum_norm", v / tol.max(1e-300)));
                 }
             }
+        }
+        if let Some(msg) = min_norm_bad {
+            if fallback_ok(s) {
+                g.push(("C01_accepted_by_excess_objective", 1.0));
+                continue;
+            }
+            out.push(f("C01", "not-minimum-norm", msg));
+            return;
         }
         // agreement with the reference truncated pseudo-inverse solution
         let cr = r.c_ref.column(s);
         let rr = (&r.yw.column(s) - &r.phi_w * &cr).norm();
         let tolc = k * eps * (r.kappa_kept * cr.norm() + r.kappa_kept * r.kappa_kept * rr / r.smax.max(1e-300) + r.kappa_kept * ys / r.smax.max(1e-300));
         let diff = (&c.column(s) - &cr).norm();
-        g.push(("C01_vs_reference", diff / tolc.max(1e-300)));
         if !(diff <= tolc) {
+            if fallback_ok(s) {
+                g.push(("C01_accepted_by_excess_objective", 1.0));
+                continue;
+            }
             out.push(f(
                 "C01",
                 "coefficients-vs-reference",
@@ -171,6 +213,7 @@ pub fn check_c01<T: Sc>(r: &Reference, obs: &Obs<T>, out: &mut Vec<Finding>, g: 
             ));
             return;
         }
+        g.push(("C01_vs_reference", diff / tolc.max(1e-300)));
     }
 }
 
